@@ -7,7 +7,7 @@ from typing import List, Optional
 
 from ..callgraph import callgraph
 from ..cfg import cfg_of, edges_dominate, must_reach, node_calls, node_dominates, reach
-from ..defuse import def_value, defs_of, reaching_defs, resolve_alias
+from ..defuse import def_value, defs_of, derives_from, reaching_defs, resolve_alias
 from ..esp import UNKNOWN, SELF, run_function, run_method, valuations
 from ..model import Repo, attr_chain, body_nodes, norm, short
 from .C04 import approval_edges
@@ -27,6 +27,7 @@ def check(repo: Repo, rep, tier):
     prune(repo, rep)
     persist_remove(repo, rep)
     lookup(repo, rep)
+    storage_anchor(repo, rep)
 
 
 def content_addr(repo: Repo, rep):
@@ -399,3 +400,36 @@ def lookup(repo: Repo, rep):
             rep.ok("R-LOOKUP-STRICT", g, g.node, f"{nm} resolves the name through _lookup_path")
         else:
             rep.violation("R-LOOKUP-STRICT", g, g.node, f"DiscStorage.{nm} does not resolve the name through the strict _lookup_path", construct=f"{nm}-bypass")
+
+
+def storage_anchor(repo: Repo, rep):
+    rep.rule(
+        "R-STORAGE-ANCHOR",
+        "a relative `storage-dir` is made absolute against the directory of the pyproject.toml that defines it (read_config: `<path>.parent`), and "
+        "pytest_configure uses that value as it is (falling back to rootpath/.inline-snapshot only when none is configured): sessions started from different "
+        "root directories of one project use one and the same storage",
+    )
+    rc = repo.func("_config.py::read_config")
+    pathp = rc.params[0]
+    stores = [x for x in body_nodes(rc.node) if isinstance(x, ast.Assign) and any(isinstance(t, ast.Attribute) and t.attr == "storage_dir" for t in x.targets)]
+    if not stores:
+        rep.undecided("R-STORAGE-ANCHOR", "config.storage_dir is not assigned in read_config")
+        return
+    cfg = cfg_of(rc)
+    ok = False
+    for st in stores:
+        nn = cfg.nodes_containing(st.value)
+        if nn and derives_from(cfg, nn[0], st.value, lambda x: isinstance(x, ast.Attribute) and x.attr == "parent" and norm(x.value) == pathp):
+            ok = True
+    absq = any(isinstance(c.ast, ast.Call) and norm(c.ast.func).endswith("is_absolute") for c in cfg.conds())
+    if ok and absq:
+        rep.ok("R-STORAGE-ANCHOR", rc, stores[0], "relative storage-dir anchored at the pyproject.toml directory")
+    else:
+        rep.violation("R-STORAGE-ANCHOR", rc, stores[0], "read_config stores a relative `storage-dir` without anchoring it at the directory of its pyproject.toml: the storage location then depends on the directory the session is started from (externals written by one session are not found by another)", construct="unanchored")
+    pc = repo.func("pytest_plugin.py::pytest_configure")
+    for x in body_nodes(pc.node):
+        if isinstance(x, ast.BinOp) and isinstance(x.op, ast.Div) and "rootpath" in norm(x.left) and "storage_dir" in norm(x.right) and "rootpath" not in norm(x.right):
+            rep.violation("R-STORAGE-ANCHOR", pc, x, "pytest_configure re-anchors the configured storage-dir at the session's rootpath", construct="rootpath/storage_dir")
+            break
+    else:
+        rep.ok("R-STORAGE-ANCHOR", pc, pc.node, "configured storage-dir used as it is")
